@@ -532,7 +532,9 @@ def Client.handleFrame (hc : HC H) (c : Client H) (f : Frame) (nowMs nowNs : Nat
         let h := hc.new (hcConfig c.ep localNonce nonce maxRecvRate maxRecvAlloc) nowNs
         let h := sends.foldl (fun h (e : List Nat × Nat × SendMode) => hc.send h e.1 e.2.1 e.2.2) h
         .ok ({ c with eventsOut := c.eventsOut ++ [CEvent.connect],
-                      state := .active localNonce h (nowMs + c.ep.activeTimeoutMs) none },
+                      -- `timeout_time_ms: self.config.endpoint_config.active_timeout_ms`: absolute, as written in
+                      -- the code (known finding F9: the deadline should be `now_ms + active_timeout_ms`)
+                      state := .active localNonce h c.ep.activeTimeoutMs none },
              [encode (.hsAck nonce)])
       else .ok (c, [])
     | .active localNonce _ _ _ =>
